@@ -625,3 +625,48 @@ Fixpoint mm_isAvail (m : entries) (keys : list value) : res value :=
   | VStr k :: r => match assoc_v k m with Some _ => mm_isAvail m r | None => Ok (VBool false) end
   | _ => Err None
   end.
+
+(* Map.Merge (the + of two maps), after the repair of the empty-key overlap: any key of the other map
+   that the receiver has is an error; MergeMap iterates the receiver first *)
+Fixpoint has_dup (a other : entries) : bool :=
+  match other with
+  | [] => false
+  | (k, _) :: r => match assoc_v k a with Some _ => true | None => has_dup a r end
+  end.
+
+Definition mm_merge (a b : entries) : res entries :=
+  if has_dup a b then Err None else Ok (a ++ b).
+
+(* Map.Replace with ReplaceMap (Get answers only for keys of the original, Iter and Size are the
+   original's; createFlat after 10 levels keeps the same entries in the same order) *)
+Definition mm_replace (f : cb1) (m : entries) : res entries :=
+  bind (f (VMap m)) (fun r =>
+    match r with
+    | VMap rep => Ok (map (fun kv => (fst kv, match assoc_v (fst kv) rep with Some x => x | None => snd kv end)) m)
+    | _ => Err None
+    end).
+
+(* Map.ToString: {k:v, k:v} in iteration order *)
+Fixpoint map_to_string_from (m : entries) (first : bool) : res str :=
+  match m with
+  | [] => Ok []
+  | (k, v) :: r =>
+      bind (to_string v) (fun s =>
+      bind (map_to_string_from r false) (fun rest =>
+      Ok ((if first then [] else [44; 32]%N) ++ k ++ [58%N] ++ s ++ rest)))
+  end.
+
+Definition map_to_string (m : entries) : res str :=
+  bind (map_to_string_from m true) (fun s => Ok ([123%N] ++ s ++ [125%N])).
+
+(* the observer bundle of the correspondence run on one map m:
+   [m.size(), m.list().size(), m.list(), [[m.isAvail(k), try m.get(k) catch -1, try m.put(k,0).size() catch -1] ...], string(m)] *)
+Definition mm_observe_key (m : entries) (k : str) : value :=
+  VList [VBool (match assoc_v k m with Some _ => true | None => false end);
+         match assoc_v k m with Some v => v | None => VInt (-1) end;
+         match assoc_v k m with Some _ => VInt (-1) | None => VInt (Z.of_nat (S (length m))) end].
+
+Definition mm_observe (m : entries) (keys : list str) : res value :=
+  bind (map_to_string m) (fun s =>
+    Ok (VList [VInt (Z.of_nat (length m)); VInt (Z.of_nat (length (mm_list m))); VList (mm_list m);
+               VList (map (mm_observe_key m) keys); VStr s])).
